@@ -28,6 +28,7 @@ PROPERTY = "C10"
 LEAN_MODULES = ["VgiVerif.Proofs.C10", "VgiVerif.Findings.C10"]
 OBLIGATIONS = [
     "VgiVerif.C10.C10_shapes",
+    "VgiVerif.C10.C10_retry_shapes",
     "VgiVerif.C10.C10_inputs_schema",
     "VgiVerif.C10.C10_inputs_reject",
     "VgiVerif.C10.C10_inputs_reach_state_pipe",
@@ -50,6 +51,8 @@ TRUSTED = [
     "svcgen's generated state (ScriptState) is instrumented by monkeypatching from harness/common/c10util.py "
     "(input-schema log, raising on_cancel, HTTP request / token-mint / client-write counters)",
     "subprocess transport is not exercised (same code path as pipe)",
+    "the lossy network is a gateway in front of the in-process Falcon client that forwards each POST and replaces chosen "
+    "answers by 502/503/504 (harness/common/c10util.py); connection errors / timeouts on the response path are not injected",
 ]
 PARTIAL = [
     "next_with_token / seek_to_token (resumable relays) and a second iter() on one HTTP session are outside the op model",
@@ -61,15 +64,18 @@ RULE = (
     "renamed / duplicated fields / uncastable values; sessions: random methods (producer|exchange, header?, 0-2 init logs, 0-6 steps "
     "from emit/finish/emit+finish/raise/nothing, failing init) x op lists with a cancel or close at a uniformly chosen point "
     "(before the first batch, between, after the last) and 1-3 ops after it x {pipe, unix, tcp, shm, http cap None / 1e6 / "
-    "600-3000 with codecs}; plus the exhaustive grid of all step scripts of length <= 2 x every cancel point; a case = "
-    "(method, ops, transport); non-trivial when it contains a cancel, a perturbed input or a header; distinct by canonical JSON"
+    "600-3000 with codecs}; every HTTP session with probability 1/2 once more behind a gateway that loses the answers of chosen "
+    "POST attempts after the server handled them (targeted at the cancel / init / any op's request, or a random subset) with a "
+    "client retry budget of None/0/1/2/3; plus the exhaustive grid of all step scripts of length <= 2 x every cancel point; a case = "
+    "(method, ops, transport[, network]); non-trivial when it contains a cancel, a perturbed input or a header; distinct by canonical JSON"
 )
 MANIFEST = {
     "level": "proof",
     "text": "Lean theorems for ALL step scripts, op sequences, cancel points, break decisions and cast environments: coerced inputs "
             "have the declared schema and other field sets are rejected; delivered data = emitted data up to finish; one output per "
             "input, finish refused; header exactly once before data; after cancel no process(), on_cancel <= 1, no error, every "
-            "later op refused with no server contact. Correspondence ties the op machines to the real sessions on generated programs",
+            "later op refused with no server contact — over HTTP for every set of lost responses and every client retry budget "
+            "(the cancel POST is not retried: extracted and pinned). Correspondence ties the op machines to the real sessions on generated programs",
     "note": "Arrow primitives and byte-level transport abstracted (exercised by the correspondence runs); HTTP break decisions are "
             "an arbitrary function in the theorems and read off the minted tokens in the correspondence",
     "technique": "Lean 4 proof (state-machine invariants + corollaries of the Engine refinement theorems) + generated-session "
@@ -369,6 +375,8 @@ def canon_events(evs: list[list[Any]]) -> list[Any]:
         ce = c01.canon_ev(e)
         if ce is None:
             continue
+        if ce[0] == "error" and ce[1] in ("HttpError", "HttpTransientError"):
+            ce = ["error", ce[1], "", ce[3]]      # text = status and body preview of the answer, not modelled
         if ce[0] == "error" and ce[1] == "TransportError" and "(write)" in ce[2]:
             ce = ["error", ce[1], ce[2][: ce[2].index("(write)") + len("(write)")], ce[3]]
         out.append(ce)
@@ -415,7 +423,9 @@ def spec_emitted(steps: list[dict[str, Any]]) -> tuple[list[int], str]:
 FINISH_MSG = "finish() is not allowed on exchange streams"
 
 
-def oracle(ctx: Any, case: dict[str, Any], m: dict[str, Any], ops: list[list[Any]], cfg: Config, r: dict[str, Any], decl_fields: list[list[str]]) -> None:
+def oracle(ctx: Any, case: dict[str, Any], m: dict[str, Any], ops: list[list[Any]], cfg: Config, r: dict[str, Any], decl_fields: list[list[str]],
+           net: dict[str, Any] | None = None) -> None:
+    faulty = bool(net and net.get("lost"))      # the gateway loses some responses: the client legitimately sees gateway errors
     kindtag = "http" if cfg.kind == "http" else "socket"
     producer = m["kind"] == "producer"
     init_ok = m.get("init", "ok") == "ok"
@@ -425,11 +435,11 @@ def oracle(ctx: Any, case: dict[str, Any], m: dict[str, Any], ops: list[list[Any
         bad = [e for e in everything if e[0] == "raised"][0]
         ctx.fail(case, f"C10:raised:{bad[1]}:{kindtag}", f"a non-RpcError exception reached the caller: {bad}")
     crash = [e for e in everything if e[0] == "error" and e[1] == "HttpError"]
-    if crash:
+    if crash and not faulty:
         # the server answered with a non-Arrow body: an exception escaped the RPC error path (a refusal is an RPC error)
         ctx.fail(case, f"C10:unhandled-server-exception:{kindtag}", f"client saw {crash[0][:3]}")
     # --- header: once, before any data
-    if m.get("header") and init_ok:
+    if m.get("header") and init_ok and (r["session"] or not faulty):
         hs = [i for i, e in enumerate(everything) if e[0] == "header"]
         if len(hs) != 1:
             ctx.fail(case, f"C10:header:count:{kindtag}", f"declared header delivered {len(hs)} times")
@@ -451,7 +461,7 @@ def oracle(ctx: Any, case: dict[str, Any], m: dict[str, Any], ops: list[list[Any
                         ctx.fail(case, f"C10:inputs:not-rejected:{kindtag}", f"input with fields {nms} was processed (declared {decl_fields})")
     # --- producer consumed to the end without interference: delivered = emitted up to finish, ends exactly there
     only_consume = all(op[0] in ("next", "iter", "tick") for op in ops)
-    if producer and init_ok and only_consume and ops and ops[-1] == ["iter", None]:
+    if producer and init_ok and only_consume and ops and ops[-1] == ["iter", None] and not faulty:
         ids, how = spec_emitted(m["steps"])
         got = [e[1] for e in flat if e[0] == "data"]
         term = [e[0] for e in flat if e[0] in ("end", "error")][:1]
@@ -462,8 +472,8 @@ def oracle(ctx: Any, case: dict[str, Any], m: dict[str, Any], ops: list[list[Any
     # --- exchange: every input that reached process() yields exactly one output; finish is refused with the RuntimeError
     if not producer and init_ok:
         for op, t, ev in zip(ops, r["trace"], r["events"][1:]):
-            if op[0] != "send":
-                continue
+            if op[0] != "send" or any(e[0] == "lost" for e in ev):
+                continue                  # (an input whose answer the gateway lost is reported as a gateway error)
             ks = [e[2] for e in ev if e[0] == "process"]
             nd = sum(1 for e in t if e[0] == "data")
             errs = [e for e in t if e[0] == "error"]
@@ -525,12 +535,19 @@ def brk_of(cfg: Config, r: dict[str, Any]) -> Any:
     return [i - 1 for i in mints]
 
 
-def check_session(ctx: Any, m: dict[str, Any], ops: list[list[Any]], cfg: Config, cancel_raises: bool = False, extra_tags: tuple[str, ...] = ()) -> None:
+def check_session(ctx: Any, m: dict[str, Any], ops: list[list[Any]], cfg: Config, cancel_raises: bool = False, extra_tags: tuple[str, ...] = (),
+                  net: dict[str, Any] | None = None) -> None:
+    """`net` (HTTP only) = {"retries": n | None, "lost": [POST attempt numbers], "status": 502|503|504}: the client has an
+    HttpRetryConfig(max_retries=n) and the responses of those POST attempts are lost after the server handled them."""
+    if cfg.kind != "http":
+        net = None
     decl = c10util.mk_schema(DECL2)
     decl_fields = c10util.schema_fields(decl)
     desc = {"methods": [m]}
     case = {"method": m, "ops": ops, "transport": {"kind": cfg.kind, "cap": cfg.cap, "codec": cfg.codec}, "cancel_raises": cancel_raises}
-    r = c10util.run_ops(desc, m["name"], ops, cfg, decl, cancel_raises=cancel_raises)
+    if net is not None:
+        case["net"] = net
+    r = c10util.run_ops(desc, m["name"], ops, cfg, decl, cancel_raises=cancel_raises, net=net)
     has_cancel = any(op[0] == "cancel" for op in ops)
     perturbed = any(op[0] == "send" and [c[:2] for c in op[1]["cols"]] != [f[:2] for f in DECL2] for op in ops)
     tags = [f"t:{cfg.label()}", f"kind:{m['kind']}", "cancel" if has_cancel else "no-cancel"] + list(extra_tags)
@@ -545,13 +562,17 @@ def check_session(ctx: Any, m: dict[str, Any], ops: list[list[Any]], cfg: Config
             tags.append("after-cancel:" + op[0])
     if m.get("header"):
         tags.append("header")
+    if net is not None:
+        tags.append(f"net:retries={net.get('retries')}")
+        lost_kinds = sorted({e2 for ch, opn in zip(r["events"], ["open"] + [o[0] for o in ops]) for e in ch if e[0] == "lost" for e2 in [opn]})
+        tags += [f"net:lost-answer:{k}" for k in lost_kinds]
     ctx.case(case, nontrivial=has_cancel or perturbed or bool(m.get("header")), tags=tags)
     if r["hung"] or (r["session"] and len(r["trace"]) != len(ops)):
         ctx.fail(case, f"C10:hung:{cfg.kind}", f"session did not complete on {cfg.label()} (ops done {len(r['trace'])}/{len(ops)})")
         return
     r["open"] = canon_events(r["open"])
     r["trace"] = [canon_events(t) for t in r["trace"]]
-    oracle(ctx, case, m, ops, cfg, r, decl_fields)
+    oracle(ctx, case, m, ops, cfg, r, decl_fields, net)
     if ctx.driver is None:
         return
     impl = {"open": r["open"], "session": r["session"], "trace": r["trace"] if r["session"] else [], "slog": impl_slog(r["events"])}
@@ -568,7 +589,46 @@ def check_session(ctx: Any, m: dict[str, Any], ops: list[list[Any]], cfg: Config
             what = next((k for k in ("open", "session", "trace", "slog", "contacts") if mod[k] != impl[k]), "?")
             ctx.mismatch(case, mod, impl, f"{cfg.label()}: session {what} differs from the Lean op machine")
 
-    enqueue(ctx, "C10.session", model_args(m, ops, cfg, brk_of(cfg, r), decl), compare)
+    args = model_args(m, ops, cfg, brk_of(cfg, r), decl)
+    if net is not None:
+        args["lost"] = sorted(net.get("lost", []))
+        args["retries"] = net.get("retries")
+    enqueue(ctx, "C10.session", args, compare)
+
+
+# ------------------------------------------------------------------------------------------ sessions: the network dimension
+
+
+def targeted_net(m: dict[str, Any], ops: list[list[Any]], cfg: Config, j: int | None, retries: int | None, n_lost: int = 1,
+                 status: int = 502) -> dict[str, Any]:
+    """A gateway that loses the answer(s) to the request op `j` sends first (j = None: the /init request), found by one
+    fault-free run of the same session (POST attempts are numbered over the whole session, /init = 0)."""
+    clean = c10util.run_ops({"methods": [m]}, m["name"], ops, cfg, c10util.mk_schema(DECL2))
+    chunks = clean["events"]
+    upto = 0 if j is None else sum(1 for ch in chunks[: j + 1] for e in ch if e[0] == "http")
+    return fix_net(m, {"retries": retries, "lost": [upto + i for i in range(n_lost)], "status": status})
+
+
+def fix_net(m: dict[str, Any], net: dict[str, Any]) -> dict[str, Any]:
+    # Outside C10: without a retry config a lost /init answer of a header-declaring stream reaches the header reader as
+    # raw bytes and surfaces as pyarrow's ArrowInvalid; the model does not describe that, so /init is not lost there.
+    if net.get("retries") is None and m.get("header"):
+        net = dict(net, lost=[k for k in net["lost"] if k != 0])
+    return net
+
+
+def gen_net(rng: Any, m: dict[str, Any], ops: list[list[Any]], cfg: Config) -> dict[str, Any]:
+    retries = rng.choice([None, 0, 1, 1, 2, 3])
+    status = rng.choice([502, 503, 504])
+    r = rng.random()
+    if r < 0.65:
+        cancels = [i for i, op in enumerate(ops) if op[0] == "cancel"]
+        if cancels and rng.random() < 0.7:
+            j: int | None = rng.choice(cancels)
+        else:
+            j = rng.choice([None] + list(range(len(ops))))
+        return targeted_net(m, ops, cfg, j, retries, rng.choice([1, 1, 2, 3]), status)
+    return fix_net(m, {"retries": retries, "lost": sorted(rng.sample(range(0, 9), rng.choice([1, 2, 3]))), "status": status})
 
 
 def L(t: str) -> dict[str, Any]:
@@ -622,6 +682,25 @@ def _corpus() -> list[tuple[dict[str, Any], list[list[Any]], list[Config]]]:
     ]
 
 
+def _net_corpus() -> list[tuple[dict[str, Any], list[list[Any]], dict[str, Any]]]:
+    """hand-written sessions behind a lossy gateway (all over http, cap None): (method, ops, net)"""
+    P = {"name": "m", "kind": "producer", "header": False, "hdr": 0, "init_logs": [L("il")], "init": "ok", "steps": [EM(1, 1), EM(2), EM(3)]}
+    X = {"name": "m", "kind": "exchange", "header": True, "hdr": 2, "init_logs": [L("xi")], "init": "ok", "steps": [EM(1), EM(2)]}
+    rng = __import__("random").Random(3)
+    ok = lambda v=1: ["send", {"cols": input_cols(rng, "ok", v)}]  # noqa: E731
+    return [
+        (P, [["next"], ["cancel"], ["next"]], {"retries": 1, "lost": [1], "status": 502}),        # the cancel answer is lost
+        (P, [["next"], ["next"], ["cancel"], ["cancel"]], {"retries": 2, "lost": [2, 3], "status": 504}),
+        (P, [["next"], ["cancel"]], {"retries": None, "lost": [1], "status": 503}),
+        (X, [ok(1), ["cancel"], ok(2)], {"retries": 3, "lost": [2], "status": 502}),
+        (X, [["cancel"]], {"retries": 1, "lost": [1], "status": 503}),
+        (P, [["next"], ["next"], ["next"], ["cancel"]], {"retries": 1, "lost": [0, 2], "status": 502}),   # init and a continuation retried
+        (P, [["next"], ["next"], ["next"]], {"retries": 1, "lost": [1, 2], "status": 502}),           # retry budget exhausted
+        (X, [ok(1), ok(2), ["cancel"]], {"retries": 2, "lost": [1], "status": 502}),                  # exchange is never retried
+        (X, [ok(1)], {"retries": 0, "lost": [0], "status": 503}),
+    ]
+
+
 def exhaustive_grid(ctx: Any) -> None:
     """every step script of length ≤ 2 over {emit, finish, emit+finish, raise} × every cancel point × 3 transports"""
     acts = [lambda i: {"emit": {"id": i, "rows": 1, "meta": {}}}, lambda i: "finish", lambda i: {"emit_finish": {"id": i, "rows": 1, "meta": {}}},
@@ -642,6 +721,9 @@ def exhaustive_grid(ctx: Any) -> None:
                 ops = [list(cons) for _ in range(point)] + [["cancel"]] + [list(cons), list(cons)]
                 for cfg in cfgs:
                     check_session(ctx, m, ops, cfg, extra_tags=("grid",))
+                # … and once more over HTTP with the answer to the cancel request lost, the client retrying once
+                check_session(ctx, m, ops, cfgs[1], extra_tags=("grid", "grid:net"),
+                              net=targeted_net(m, ops, cfgs[1], point, 1, 1, 502))
 
 
 # ------------------------------------------------------------------------------------------ run
@@ -656,6 +738,8 @@ def run(ctx: Any) -> None:
     for m, ops, cfgs in _corpus():
         for cfg in (cfgs if ctx.tier == "thorough" else cfgs[:1] + cfgs[2:4]):
             check_session(ctx, m, ops, cfg, extra_tags=("corpus",))
+    for m, ops, net in _net_corpus():
+        check_session(ctx, m, ops, Config("http", None, "zstd"), extra_tags=("corpus", "corpus:net"), net=net)
     exhaustive_grid(ctx)
     ctx.note("grid", "all step scripts of length <= 2 over {emit, finish, emit+finish, raise} x {producer, exchange} x every "
                      "cancel point x {pipe, http, http(cap 1e6)} enumerated")
@@ -664,6 +748,9 @@ def run(ctx: Any) -> None:
         for cfg in configs_for(rng, m, ctx.tier == "thorough" and i % 3 == 0):
             ops = gen_ops(rng, m, cfg.kind == "http")
             check_session(ctx, m, ops, cfg, cancel_raises=rng.random() < 0.2)
+            if cfg.kind == "http" and rng.random() < 0.5:
+                # the same session behind a gateway that loses answers, the client with / without a retry config
+                check_session(ctx, m, ops, cfg, cancel_raises=rng.random() < 0.2, net=gen_net(rng, m, ops, cfg))
     if ctx.driver is not None:
         flush(ctx)
 
@@ -674,6 +761,6 @@ def replay(ctx: Any, case: dict[str, Any]) -> None:
     else:
         t = case["transport"]
         check_session(ctx, case["method"], case["ops"], Config(t["kind"], t.get("cap"), t.get("codec")),
-                      cancel_raises=case.get("cancel_raises", False))
+                      cancel_raises=case.get("cancel_raises", False), net=case.get("net"))
     if ctx.driver is not None:
         flush(ctx)
